@@ -154,7 +154,7 @@ fn cubic_tag(c0: f64, c1: f64, c2: f64, c3: f64, n: usize) -> &'static str {
 /// scaled coefficients of moderate size: the libm-class values stay below ~1e4 in magnitude
 fn gen_cubic_moderate(r: &mut Rng) -> [f64; 4] {
     let s = scale(r) * if r.bool() { -1.0 } else { 1.0 };
-    match r.below(4) {
+    match r.below(5) {
         0 => {
             let (p, q, t) = (moderate(r), moderate(r), moderate(r));
             [-s * p * q * t, s * (p * q + p * t + q * t), -s * (p + q + t), s]
@@ -164,6 +164,12 @@ fn gen_cubic_moderate(r: &mut Rng) -> [f64; 4] {
             let (p, u, v) = (moderate(r), moderate(r), moderate(r));
             let (b, c) = (-2.0 * u, u * u + v * v);
             [-s * p * c, s * (c - p * b), s * (b - p), s]
+        }
+        2 => {
+            // small |d0| (linear and quadratic terms small): the two cube roots of the one-root branch nearly
+            // cancel one of their arguments
+            let e = 10f64.powf(-r.uniform(2.0, 9.0));
+            [s * moderate(r), s * e * moderate(r), s * e * moderate(r) * if r.bool() { 1.0 } else { 0.0 }, s]
         }
         _ => [s * moderate(r), s * moderate(r), s * moderate(r), s],
     }
@@ -217,7 +223,13 @@ fn gen_quartic_moderate(r: &mut Rng) -> [f64; 5] {
 }
 
 fn gen_quartic_wild(r: &mut Rng) -> [f64; 5] {
-    match r.below(8) {
+    match r.below(10) {
+        8 => {
+            // (x^2 + a x + b1)(x^2 + a x + b2): d_2 = 0 up to rounding
+            let (a, b1, b2) = (r.range_i(-20, 20) as f64 / 10.0, r.range_i(-10, 10) as f64 / 10.0, r.range_i(-10, 10) as f64 / 10.0);
+            [b1 * b2, a * (b1 + b2), b1 + b2 + a * a, 2.0 * a, 1.0]
+        }
+        9 => [moderate(r), moderate(r), 0.0, 0.0, moderate(r)],
         0 => [moderate(r), moderate(r), moderate(r), moderate(r), *r.pick(&[0.0, -0.0])],
         1 => [*r.pick(&[0.0, -0.0]), moderate(r), moderate(r), moderate(r), moderate(r)],
         2 => [special(r), special(r), special(r), special(r), special(r)],
@@ -340,11 +352,34 @@ fn gen_itp(r: &mut Rng) -> Option<Vec<f64>> {
     Some(v)
 }
 
-fn run_itp(v: &[f64]) -> (f64, u64) {
+/// evaluation budget for solve_itp: a run that needs more has lost its termination argument
+const ITP_MAX_EVALS: u64 = 100_000;
+
+fn run_itp(v: &[f64]) -> Option<(f64, u64)> {
     let p = v[0..4].to_vec();
-    kurbo::verif::reset();
-    let x = solve_itp(|x| poly3(&p, x), v[4], v[5], v[6], v[7] as usize, v[8], v[9], v[10]);
-    (x, kurbo::verif::work())
+    let v = v.to_vec();
+    std::panic::catch_unwind(move || {
+        kurbo::verif::reset();
+        let mut n = 0u64;
+        let x = solve_itp(
+            |x| {
+                n += 1;
+                if n > ITP_MAX_EVALS {
+                    panic!("solve_itp does not terminate");
+                }
+                poly3(&p, x)
+            },
+            v[4],
+            v[5],
+            v[6],
+            v[7] as usize,
+            v[8],
+            v[9],
+            v[10],
+        );
+        (x, kurbo::verif::work())
+    })
+    .ok()
 }
 
 // ------------------------------------------------------------------ correspondence
@@ -441,7 +476,14 @@ fn corr(r: &mut Rng, thorough: bool, o: &mut Out) {
     let mut k = 0;
     while k < n / 2 {
         if let Some(v) = gen_itp(r) {
-            let (x, iters) = run_itp(&v);
+            let (x, iters) = match run_itp(&v) {
+                Some(xi) => xi,
+                None => {
+                    o.violation("solve_itp:non-termination", format!("solve_itp on p0+x(p1+x(p2+x p3)), args {:?}: more than {} evaluations (or a panic)", v, ITP_MAX_EVALS), format!("{{\"args\":{}}}", crate::util::fmt_fs(&v)));
+                    k += 1;
+                    continue;
+                }
+            };
             let mut args = v.clone();
             args.push(iters as f64);
             let tag = if poly3(&v[0..4], x) == 0.0 { "exact-zero" } else if iters == 0 { "no-iteration" } else { "bracket" };
@@ -452,9 +494,800 @@ fn corr(r: &mut Rng, thorough: bool, o: &mut Out) {
 }
 
 // ------------------------------------------------------------------ laws on the implementation
+//
+// Oracles (independent of the solvers' algorithms):
+//  * residual: |P(x)| <= K eps sum |c_i| R^i with R a bound on the root magnitudes (Fujiwara), P by Horner
+//    ("the polynomial vanishes to rounding there", normwise);
+//  * forward: a prescribed simple root x with the other roots z_j (complex ones included) must be matched by a
+//    returned value within K eps (2R)^n / prod |x - z_j|  (first-order perturbation bound of the root under a
+//    relative perturbation eps of the coefficients, normwise: "tolerance scaled by the condition of the root");
+//  * counts: from the construction (prescribed roots / complex pairs) or exact integer discriminants.
 
-fn laws() -> Vec<Law> {
-    vec![]
+const EPS: f64 = f64::EPSILON;
+/// slack over the first-order bounds; the pinned tree stays below ~1/50 of it on the sampled families
+const K: f64 = 4096.0;
+
+fn fail(class: &str, d: String) -> Option<(String, String)> {
+    Some((class.to_string(), d))
+}
+/// The collector keeps at most 200 violations per run: report each class at most 12 times so that a
+/// frequently failing (e.g. known) class cannot crowd out a different one.
+fn limit(class: String, d: String) -> Option<(String, String)> {
+    use std::collections::HashMap;
+    use std::sync::Mutex;
+    static SEEN: Mutex<Option<HashMap<String, u32>>> = Mutex::new(None);
+    let mut g = SEEN.lock().unwrap_or_else(|e| e.into_inner());
+    let n = g.get_or_insert_with(HashMap::new).entry(class.clone()).or_insert(0);
+    *n += 1;
+    if *n > 12 {
+        return None;
+    }
+    Some((class, d))
+}
+/// Known finding C15-cubic-one-root-cancellation, recognised narrowly: the polynomial is (or delegates to) a
+/// cubic in the one-root branch (d < 0) where one of r + sq, r - sq cancels below 1e-3 of its operands, AND the
+/// value computed with the non-cancelling cube root (u = cbrt(r + copysign(sq, r)), v = -d0/u) passes the
+/// residual test. Any other failure of the cubic solver keeps its own class.
+fn cubic_cancellation(c: &[f64]) -> bool {
+    let c: &[f64] = match c.len() {
+        4 => c,
+        5 if c[4] == 0.0 => &c[0..4],
+        5 if c[0] == 0.0 => &c[1..5],
+        _ => return false,
+    };
+    let c3_recip = c[3].recip();
+    const ONETHIRD: f64 = 1. / 3.;
+    let (c2, c1, c0) = (c[2] * (ONETHIRD * c3_recip), c[1] * (ONETHIRD * c3_recip), c[0] * c3_recip);
+    if !(c0.is_finite() && c1.is_finite() && c2.is_finite()) {
+        return false;
+    }
+    let d0 = (-c2).mul_add(c2, c1);
+    let d1 = (-c1).mul_add(c2, c0);
+    let d2 = c2 * c0 - c1 * c1;
+    let d = 4.0 * d0 * d2 - d1 * d1;
+    let de = (-2.0 * c2).mul_add(d0, d1);
+    if !(d < 0.0) {
+        return false;
+    }
+    let sq = (-0.25 * d).sqrt();
+    let r = -0.5 * de;
+    if !((r + sq).abs().min((r - sq).abs()) < 1e-3 * (r.abs() + sq)) {
+        return false;
+    }
+    let u = (r + sq.copysign(r)).cbrt();
+    let v = if u == 0.0 { 0.0 } else { -d0 / u };
+    residual_ok(c, u + v - c2).is_ok()
+}
+/// last step of every polynomial law: narrow re-classification of the known cancellation, then the per-class cap
+fn finish(res: Option<(String, String)>, c: Option<Vec<f64>>) -> Option<(String, String)> {
+    let (class, desc) = res?;
+    let class = match c {
+        Some(c) if !class.contains("-leading-coefficient") && cubic_cancellation(&c) => "solve_cubic:one-root-cancellation".to_string(),
+        _ => class,
+    };
+    limit(class, desc)
+}
+fn horner(c: &[f64], x: f64) -> f64 {
+    c.iter().rev().fold(0.0, |acc, ci| acc * x + ci)
+}
+fn dhorner(c: &[f64], x: f64) -> f64 {
+    let mut acc = 0.0;
+    for i in (1..c.len()).rev() {
+        acc = acc * x + c[i] * i as f64;
+    }
+    acc
+}
+/// Fujiwara's bound on the magnitude of every complex root (leading coefficient c[n] != 0)
+fn fujiwara(c: &[f64]) -> f64 {
+    let n = c.len() - 1;
+    let an = c[n].abs();
+    let mut m = 0f64;
+    for k in 1..=n {
+        let q = (c[n - k] / an).abs() * if k == n { 0.5 } else { 1.0 };
+        m = m.max(q.powf(1.0 / k as f64));
+    }
+    2.0 * m
+}
+fn norm_sum(c: &[f64], r: f64) -> f64 {
+    c.iter().enumerate().map(|(i, ci)| ci.abs() * r.powi(i as i32)).sum()
+}
+/// residual test for one returned value
+fn residual_ok(c: &[f64], x: f64) -> Result<(), String> {
+    if !x.is_finite() {
+        return Err(format!("returned value {} is not finite", x));
+    }
+    let r = fujiwara(c);
+    if !r.is_finite() {
+        return Ok(()); // bound overflowed: nothing can be said normwise
+    }
+    if x.abs() > 1.0001 * r + f64::MIN_POSITIVE {
+        return Err(format!("returned value {} exceeds the root bound {}", x, r));
+    }
+    let p = horner(c, x).abs();
+    let tol = K * EPS * norm_sum(c, r);
+    if p <= tol || !tol.is_finite() {
+        Ok(())
+    } else {
+        Err(format!("|P({})| = {:e} > {:e} (normwise rounding level)", x, p, tol))
+    }
+}
+/// forward tolerance for a simple root x given all other roots as (re, im)
+fn forward_tol(x: f64, others: &[(f64, f64)], rmax: f64) -> f64 {
+    let n = others.len() + 1;
+    let mut prod = 1.0;
+    for (re, im) in others {
+        prod *= (x - re).hypot(*im);
+    }
+    K * EPS * (2.0 * rmax).powi(n as i32) / prod + 4.0 * EPS * x.abs()
+}
+/// every expected real root is matched by a distinct returned value
+fn match_roots(name: &str, got: &[f64], expected: &[(f64, f64)], desc: &str) -> Option<(String, String)> {
+    // expected: (root, tolerance), ascending
+    let mut g = got.to_vec();
+    g.sort_by(|a, b| a.partial_cmp(b).unwrap_or(std::cmp::Ordering::Equal));
+    if g.len() != expected.len() {
+        return fail(&format!("{}:count", name), format!("{}: {} values returned {:?}, {} separated real roots expected {:?}", desc, g.len(), got, expected.len(), expected.iter().map(|e| e.0).collect::<Vec<_>>()));
+    }
+    for (x, (e, tol)) in g.iter().zip(expected) {
+        if !((x - e).abs() <= *tol) {
+            return fail(&format!("{}:root-value", name), format!("{}: returned {:?}, expected root {} (tolerance {:e}) got {}", desc, got, e, tol, x));
+        }
+    }
+    None
 }
 
-fn extra(_r: &mut Rng, _thorough: bool, _o: &mut Out) {}
+/// a magnitude profile for prescribed roots: overall size 1e-3..1e3, each root within 1e6 of the largest
+fn root_mag(r: &mut Rng, top: f64) -> f64 {
+    let m = match r.below(4) {
+        0 => top,
+        1 => top * 10f64.powf(-r.uniform(0.0, 6.0)),
+        _ => top * 10f64.powf(-r.uniform(0.0, 2.0)),
+    };
+    m * if r.bool() { 1.0 } else { -1.0 } * r.uniform(0.5, 1.0)
+}
+fn top_mag(r: &mut Rng) -> f64 {
+    10f64.powf(r.uniform(-3.0, 3.0))
+}
+fn law_scale(r: &mut Rng) -> f64 {
+    10f64.powf(r.uniform(-6.0, 6.0)) * if r.bool() { 1.0 } else { -1.0 }
+}
+fn separated(xs: &[(f64, f64)]) -> bool {
+    for i in 0..xs.len() {
+        for j in 0..i {
+            let d = (xs[i].0 - xs[j].0).hypot(xs[i].1 - xs[j].1);
+            let m = xs[i].0.hypot(xs[i].1).max(xs[j].0.hypot(xs[j].1));
+            if d < 1e-3 * m {
+                return false;
+            }
+        }
+    }
+    true
+}
+/// multiply polynomial (ascending coefficients) by (x - p)
+fn mul_lin(c: &[f64], p: f64) -> Vec<f64> {
+    let mut o = vec![0.0; c.len() + 1];
+    for (i, ci) in c.iter().enumerate() {
+        o[i + 1] += ci;
+        o[i] -= p * ci;
+    }
+    o
+}
+/// multiply by x^2 - 2u x + (u^2 + v^2)
+fn mul_pair(c: &[f64], u: f64, v: f64) -> Vec<f64> {
+    let (b, cc) = (-2.0 * u, u * u + v * v);
+    let mut o = vec![0.0; c.len() + 2];
+    for (i, ci) in c.iter().enumerate() {
+        o[i + 2] += ci;
+        o[i + 1] += b * ci;
+        o[i] += cc * ci;
+    }
+    o
+}
+
+/// Generic generator: degree n polynomial from `nreal` real roots and (n - nreal)/2 complex pairs.
+/// Output: [n, s, nreal, roots..., (u, v)...]; the law rebuilds the coefficients deterministically.
+fn gen_from_roots(r: &mut Rng, n: usize) -> Vec<f64> {
+    loop {
+        let npairs = r.below((n / 2 + 1) as u64) as usize;
+        let nreal = n - 2 * npairs;
+        let top = top_mag(r);
+        let mut all: Vec<(f64, f64)> = Vec::new();
+        let mut v = vec![n as f64, law_scale(r), nreal as f64];
+        for _ in 0..nreal {
+            let x = match r.below(12) {
+                0 | 1 => (root_mag(r, top) * 4.0).round() / 4.0,
+                2 => 0.0, // c0 = 0 exactly: the quartic's "append a zero root" path
+                _ => root_mag(r, top),
+            };
+            all.push((x, 0.0));
+            v.push(x);
+        }
+        for _ in 0..npairs {
+            let (u, w) = (root_mag(r, top), root_mag(r, top).abs());
+            all.push((u, w));
+            all.push((u, -w));
+            v.push(u);
+            v.push(w);
+        }
+        if separated(&all) && all.iter().filter(|z| z.0.hypot(z.1) == 0.0).count() <= 1 {
+            return v;
+        }
+    }
+}
+fn build_from_roots(a: &[f64]) -> (Vec<f64>, Vec<f64>, Vec<(f64, f64)>) {
+    let n = a[0] as usize;
+    let s = a[1];
+    let nreal = a[2] as usize;
+    let reals: Vec<f64> = a[3..3 + nreal].to_vec();
+    let mut all: Vec<(f64, f64)> = reals.iter().map(|x| (*x, 0.0)).collect();
+    let mut c = vec![s];
+    for x in &reals {
+        c = mul_lin(&c, *x);
+    }
+    let mut i = 3 + nreal;
+    while i + 1 < a.len() && all.len() < n {
+        c = mul_pair(&c, a[i], a[i + 1]);
+        all.push((a[i], a[i + 1]));
+        all.push((a[i], -a[i + 1]));
+        i += 2;
+    }
+    (c, reals, all)
+}
+fn solve_any(c: &[f64]) -> Vec<f64> {
+    match c.len() {
+        3 => solve_quadratic(c[0], c[1], c[2]).to_vec(),
+        4 => solve_cubic(c[0], c[1], c[2], c[3]).to_vec(),
+        _ => solve_quartic(c[0], c[1], c[2], c[3], c[4]).to_vec(),
+    }
+}
+fn solver_name(n: usize) -> &'static str {
+    match n {
+        2 => "solve_quadratic",
+        3 => "solve_cubic",
+        _ => "solve_quartic",
+    }
+}
+
+/// prescribed roots: every returned value is a root, count = number of (separated) real roots, each matched
+fn law_from_roots(a: &[f64]) -> Option<(String, String)> {
+    let (c, reals, all) = build_from_roots(a);
+    let n = c.len() - 1;
+    let name = solver_name(n);
+    let got = solve_any(&c);
+    let desc = format!("{}{:?}", name, c);
+    if got.len() > n {
+        return fail(&format!("{}:too-many", name), desc);
+    }
+    for x in &got {
+        if let Err(e) = residual_ok(&c, *x) {
+            return fail(&format!("{}:not-a-root", name), format!("{}: {}", desc, e));
+        }
+    }
+    let rmax = all.iter().fold(0f64, |m, z| m.max(z.0.hypot(z.1)));
+    let mut exp: Vec<(f64, f64)> = reals
+        .iter()
+        .map(|x| {
+            let others: Vec<(f64, f64)> = {
+                let mut skipped = false;
+                all.iter().filter(|z| if !skipped && z.1 == 0.0 && z.0 == *x { skipped = true; false } else { true }).cloned().collect()
+            };
+            (*x, forward_tol(*x, &others, rmax))
+        })
+        .collect();
+    exp.sort_by(|p, q| p.0.partial_cmp(&q.0).unwrap());
+    if let Some(v) = match_roots(name, &got, &exp, &desc) {
+        return Some(v);
+    }
+    if n == 2 && got.len() == 2 && !(got[0] <= got[1]) {
+        return fail("solve_quadratic:order", format!("{}: {:?} not ascending", desc, got));
+    }
+    None
+}
+fn g_roots2(r: &mut Rng) -> Vec<f64> {
+    gen_from_roots(r, 2)
+}
+fn g_roots3(r: &mut Rng) -> Vec<f64> {
+    gen_from_roots(r, 3)
+}
+fn g_roots4(r: &mut Rng) -> Vec<f64> {
+    gen_from_roots(r, 4)
+}
+
+// ---- integer coefficients, exact root counts
+
+fn gi(r: &mut Rng, m: i64) -> f64 {
+    match r.below(3) {
+        0 => r.range_i(-9, 9) as f64,
+        1 => r.range_i(-m.min(60), m.min(60)) as f64,
+        _ => r.range_i(-m, m) as f64,
+    }
+}
+/// [deg, c0..c_deg] integer, |c| <= 1000; quartics are products of integer factors (so the count is known)
+fn g_int(r: &mut Rng) -> Vec<f64> {
+    match r.below(4) {
+        3 => {
+            // s (a x + b)^2: exact double root -b/a
+            let (a, b, s) = (r.range_i(1, 15) as f64, r.range_i(-15, 15) as f64, *r.pick(&[1.0, -1.0, 2.0, 3.0, 4.0]));
+            vec![2.0, s * b * b, 2.0 * s * a * b, s * a * a]
+        }
+        0 => vec![2.0, gi(r, 1000), gi(r, 1000), gi(r, 1000)],
+        1 => vec![3.0, gi(r, 1000), gi(r, 1000), gi(r, 1000), gi(r, 1000)],
+        _ => loop {
+            // (a1 x^2 + b1 x + c1)(a2 x^2 + b2 x + c2), small integers; args carry the factors
+            let f: Vec<f64> = (0..6).map(|_| r.range_i(-22, 22) as f64).collect();
+            if f[2] != 0.0 && f[5] != 0.0 {
+                let mut v = vec![4.0];
+                v.extend(f);
+                return v;
+            }
+        },
+    }
+}
+fn disc2(c0: i128, c1: i128, c2: i128) -> i128 {
+    c1 * c1 - 4 * c2 * c0
+}
+fn law_int(a: &[f64]) -> Option<(String, String)> {
+    let deg = a[0] as usize;
+    match deg {
+        2 => {
+            let (c0, c1, c2) = (a[1], a[2], a[3]);
+            let got = solve_quadratic(c0, c1, c2);
+            let desc = format!("solve_quadratic({}, {}, {}) = {:?}", c0, c1, c2, got);
+            if c2 == 0.0 {
+                let want: Vec<f64> = if c1 != 0.0 { vec![-c0 / c1] } else if c0 == 0.0 { vec![0.0] } else { vec![] };
+                if got.len() != want.len() || got.iter().zip(&want).any(|(x, y)| (x - y).abs() > 4.0 * EPS * y.abs()) {
+                    return fail("solve_quadratic:linear", format!("{}, expected {:?}", desc, want));
+                }
+                return None;
+            }
+            let d = disc2(c0 as i128, c1 as i128, c2 as i128);
+            for x in got.iter() {
+                if let Err(e) = residual_ok(&a[1..], *x) {
+                    return fail("solve_quadratic:not-a-root", format!("{}: {}", desc, e));
+                }
+            }
+            let want = if d < 0 { 0 } else if d > 0 { 2 } else { 1 };
+            if d != 0 && got.len() != want {
+                return fail("solve_quadratic:count", format!("{}: exact discriminant {} requires {} roots", desc, d, want));
+            }
+            if d == 0 {
+                // a double root is not separated: any count <= 2, but every value near -c1/(2 c2)
+                let x0 = -c1 / (2.0 * c2);
+                if got.len() > 2 || got.iter().any(|x| (x - x0).abs() > 1e-6 * x0.abs().max(1e-3)) {
+                    return fail("solve_quadratic:double-root", format!("{}: double root {}", desc, x0));
+                }
+            }
+            if got.len() == 2 && !(got[0] < got[1]) {
+                return fail("solve_quadratic:order", desc);
+            }
+            None
+        }
+        3 => {
+            let c: Vec<f64> = a[1..5].to_vec();
+            let got = solve_cubic(c[0], c[1], c[2], c[3]);
+            let desc = format!("solve_cubic{:?} = {:?}", c, got);
+            if c[3] == 0.0 {
+                let q = solve_quadratic(c[0], c[1], c[2]);
+                if got.as_slice() != q.as_slice() {
+                    return fail("solve_cubic:zero-leading-coefficient", format!("{} but solve_quadratic gives {:?}", desc, q));
+                }
+                return None;
+            }
+            if got.len() > 3 {
+                return fail("solve_cubic:too-many", desc);
+            }
+            for x in got.iter() {
+                if let Err(e) = residual_ok(&c, *x) {
+                    return fail("solve_cubic:not-a-root", format!("{}: {}", desc, e));
+                }
+            }
+            // discriminant of a x^3 + b x^2 + c x + d, exact
+            let (d_, c_, b_, a_) = (c[0] as i128, c[1] as i128, c[2] as i128, c[3] as i128);
+            let disc = 18 * a_ * b_ * c_ * d_ - 4 * b_ * b_ * b_ * d_ + b_ * b_ * c_ * c_ - 4 * a_ * c_ * c_ * c_ - 27 * a_ * a_ * d_ * d_;
+            if disc > 0 && got.len() != 3 {
+                return fail("solve_cubic:count", format!("{}: exact discriminant {} > 0 requires 3 roots", desc, disc));
+            }
+            if disc < 0 && got.len() != 1 {
+                return fail("solve_cubic:count", format!("{}: exact discriminant {} < 0 requires 1 root", desc, disc));
+            }
+            if disc == 0 && got.is_empty() {
+                return fail("solve_cubic:count", format!("{}: a real cubic has a real root", desc));
+            }
+            None
+        }
+        _ => {
+            let f = &a[1..7]; // c1 b1 a1 | c2 b2 a2 (ascending in each factor)
+            let mut c = vec![0.0; 5];
+            for i in 0..3 {
+                for j in 0..3 {
+                    c[i + j] += f[i] * f[3 + j];
+                }
+            }
+            if c.iter().any(|x| x.abs() > 1000.0) {
+                return None;
+            }
+            let got = solve_quartic(c[0], c[1], c[2], c[3], c[4]);
+            let desc = format!("solve_quartic{:?} = {:?}  (factors {:?})", c, got, f);
+            if got.len() > 4 {
+                return fail("solve_quartic:too-many", desc);
+            }
+            for x in got.iter() {
+                if let Err(e) = residual_ok(&c, *x) {
+                    return fail("solve_quartic:not-a-root", format!("{}: {}", desc, e));
+                }
+            }
+            let d1 = disc2(f[0] as i128, f[1] as i128, f[2] as i128);
+            let d2 = disc2(f[3] as i128, f[4] as i128, f[5] as i128);
+            // resultant of the two quadratics: zero iff they share a root
+            let (p0, p1, p2, q0, q1, q2) = (f[0] as i128, f[1] as i128, f[2] as i128, f[3] as i128, f[4] as i128, f[5] as i128);
+            let res = (p2 * q0 - q2 * p0) * (p2 * q0 - q2 * p0) - (p2 * q1 - q2 * p1) * (p1 * q0 - q1 * p0);
+            if d1 != 0 && d2 != 0 && res != 0 && c[0] != 0.0 {
+                let want = (if d1 > 0 { 2 } else { 0 }) + (if d2 > 0 { 2 } else { 0 });
+                // separation >= 1e-3 relative is part of the quantifier: decide it on the exact factor roots
+                let mut roots: Vec<(f64, f64)> = Vec::new();
+                for (k, d) in [(0usize, d1), (3usize, d2)] {
+                    let (c0, c1, c2) = (f[k], f[k + 1], f[k + 2]);
+                    if d > 0 {
+                        let s = (d as f64).sqrt();
+                        roots.push(((-c1 - s) / (2.0 * c2), 0.0));
+                        roots.push(((-c1 + s) / (2.0 * c2), 0.0));
+                    } else {
+                        let s = (-(d as f64)).sqrt();
+                        roots.push((-c1 / (2.0 * c2), s / (2.0 * c2)));
+                        roots.push((-c1 / (2.0 * c2), -s / (2.0 * c2)));
+                    }
+                }
+                if separated(&roots) && got.len() != want {
+                    return fail("solve_quartic:count", format!("{}: factor discriminants {} and {} require {} roots", desc, d1, d2, want));
+                }
+            }
+            None
+        }
+    }
+}
+
+// ---- structured quartics: factors with a common linear coefficient (d_2 = 0 in factor_quartic_inner),
+//      x^4 + c x + d (a = b = 0), biquadratics
+
+/// [kind, scale, params...]
+fn g_quartic_structured(r: &mut Rng) -> Vec<f64> {
+    let val = |r: &mut Rng| -> f64 {
+        match r.below(3) {
+            0 => r.range_i(-20, 20) as f64 / *r.pick(&[1.0, 2.0, 3.0, 7.0, 10.0]),
+            1 => r.uniform(-4.0, 4.0),
+            _ => r.generic(-4, 4),
+        }
+    };
+    let s = if r.bool() { 1.0 } else { law_scale(r) };
+    match r.below(3) {
+        0 => vec![0.0, s, val(r), val(r), val(r)],
+        1 => vec![1.0, s, r.range_i(-1000, 1000) as f64, r.range_i(-1000, 1000) as f64],
+        _ => vec![2.0, s, val(r), val(r)],
+    }
+}
+/// roots of x^2 + a x + b as (re, im) pairs
+fn quad_roots(a: f64, b: f64) -> [(f64, f64); 2] {
+    let d = a * a - 4.0 * b;
+    if d >= 0.0 {
+        let q = -0.5 * (a + d.sqrt().copysign(a));
+        if q == 0.0 {
+            [(0.0, 0.0), (0.0, 0.0)]
+        } else {
+            [(q, 0.0), (b / q, 0.0)]
+        }
+    } else {
+        [(-0.5 * a, 0.5 * (-d).sqrt()), (-0.5 * a, -0.5 * (-d).sqrt())]
+    }
+}
+fn law_quartic_structured(v: &[f64]) -> Option<(String, String)> {
+    let s = v[1];
+    let (c, all): (Vec<f64>, Option<Vec<(f64, f64)>>) = match v[0] as usize {
+        0 | 2 => {
+            let (a, b1, b2) = if v[0] == 0.0 { (v[2], v[3], v[4]) } else { (0.0, -v[2], -v[3]) };
+            let mut all = quad_roots(a, b1).to_vec();
+            all.extend(quad_roots(a, b2));
+            (vec![s * b1 * b2, s * a * (b1 + b2), s * (b1 + b2 + a * a), s * 2.0 * a, s], Some(all))
+        }
+        _ => (vec![s * v[3], s * v[2], 0.0, 0.0, s], None),
+    };
+    let got = solve_quartic(c[0], c[1], c[2], c[3], c[4]);
+    let desc = format!("solve_quartic{:?} = {:?}", c, got);
+    let class = match v[0] as usize {
+        0 => "solve_quartic:common-linear-coefficient",
+        1 => "solve_quartic:no-cubic-no-quadratic-term",
+        _ => "solve_quartic:biquadratic",
+    };
+    if got.len() > 4 {
+        return fail(class, format!("{}: too many values", desc));
+    }
+    if c[0] == 0.0 {
+        return None; // the c0 = 0 path is exercised by the other laws
+    }
+    for x in &got {
+        if let Err(e) = residual_ok(&c, *x) {
+            return fail(class, format!("{}: {}", desc, e));
+        }
+    }
+    match all {
+        Some(all) => {
+            if !separated(&all) {
+                return None;
+            }
+            let rmax = all.iter().fold(0f64, |m, z| m.max(z.0.hypot(z.1)));
+            let mut exp: Vec<(f64, f64)> = Vec::new();
+            for (i, z) in all.iter().enumerate() {
+                if z.1 == 0.0 {
+                    let others: Vec<(f64, f64)> = all.iter().enumerate().filter(|(j, _)| *j != i).map(|(_, w)| *w).collect();
+                    exp.push((z.0, forward_tol(z.0, &others, rmax)));
+                }
+            }
+            exp.sort_by(|p, q| p.0.partial_cmp(&q.0).unwrap());
+            match_roots("solve_quartic", &got, &exp, &desc).map(|(_, d)| (class.to_string(), d))
+        }
+        None => {
+            // x^4 + c x + d: discriminant 256 d^3 - 27 c^4; < 0: two real roots, > 0: none (convex)
+            let (cc, d) = (v[2] as i128, v[3] as i128);
+            let disc = 256 * d * d * d - 27 * cc * cc * cc * cc;
+            let want = if disc < 0 { 2 } else { 0 };
+            if disc != 0 && got.len() != want {
+                return fail(class, format!("{}: exact discriminant {} requires {} real roots", desc, disc, want));
+            }
+            None
+        }
+    }
+}
+
+// ---- negligible / vanishing leading coefficient (the degree-raised case)
+
+const RAISE: [f64; 6] = [1.0, 1e-4, 1e-8, 1e-16, 1e-300, 0.0];
+
+/// [deg of the lower polynomial m (1..3), k index, sign, lower-degree data as for from_roots]
+fn g_raised(r: &mut Rng) -> Vec<f64> {
+    let m = 1 + r.below(3) as usize;
+    let mut v = vec![r.below(RAISE.len() as u64) as f64, if r.bool() { 1.0 } else { -1.0 }];
+    v.extend(gen_from_roots(r, m));
+    v
+}
+/// Newton polish of a root of the raised polynomial starting from the lower polynomial's root
+fn polish(c: &[f64], x0: f64) -> f64 {
+    let mut x = x0;
+    for _ in 0..6 {
+        let d = dhorner(c, x);
+        if d == 0.0 || !d.is_finite() {
+            break;
+        }
+        let nx = x - horner(c, x) / d;
+        if !nx.is_finite() {
+            break;
+        }
+        x = nx;
+    }
+    x
+}
+fn law_raised(a: &[f64]) -> Option<(String, String)> {
+    let k = RAISE[a[0] as usize];
+    let (lower, reals, all) = build_from_roots(&a[2..]);
+    let m = lower.len() - 1;
+    let name = solver_name(m + 1);
+    let big = lower.iter().fold(0f64, |x, y| x.max(y.abs()));
+    let lead = a[1] * k * big;
+    let mut c = lower.clone();
+    c.push(lead);
+    let got = solve_any(&c);
+    let desc = format!("{}{:?} (leading coefficient = {:e} x the largest other) = {:?}; lower-degree real roots {:?}", name, c, k, got, reals);
+    // is the leading term below the rounding level of the lower polynomial at each of its roots?
+    let negligible = lead == 0.0
+        || all.iter().all(|z| {
+            let x = z.0.hypot(z.1);
+            lead.abs() * x.powi(m as i32 + 1) <= 4.0 * EPS * norm_sum(&lower, x)
+        });
+    let class = if lead == 0.0 {
+        format!("{}:zero-leading-coefficient", name)
+    } else if negligible {
+        format!("{}:tiny-leading-coefficient", name)
+    } else {
+        format!("{}:raised-degree", name)
+    };
+    if got.len() > m + 1 {
+        return fail(&class, format!("{}: too many values", desc));
+    }
+    if lead == 0.0 {
+        let low = solve_any_lower(&lower);
+        let mut g = got.clone();
+        let mut l = low.clone();
+        g.sort_by(|a, b| a.partial_cmp(b).unwrap_or(std::cmp::Ordering::Equal));
+        l.sort_by(|a, b| a.partial_cmp(b).unwrap_or(std::cmp::Ordering::Equal));
+        if g.len() != l.len() || g.iter().zip(&l).any(|(x, y)| x != y) {
+            return fail(&class, format!("{}: the lower-degree solver returns {:?}", desc, low));
+        }
+        // identical to the lower-degree solver's result: its accuracy is the business of the other laws
+        return None;
+    } else {
+        for x in &got {
+            if let Err(e) = residual_ok(&c, *x) {
+                return fail(&class, format!("{}: {}", desc, e));
+            }
+        }
+    }
+    // every real root of the lower polynomial (moved by the leading term) must be present
+    let rmax_low = all.iter().fold(0f64, |mx, z| mx.max(z.0.hypot(z.1)));
+    for x in &reals {
+        let others: Vec<(f64, f64)> = {
+            let mut skipped = false;
+            all.iter().filter(|z| if !skipped && z.1 == 0.0 && z.0 == *x { skipped = true; false } else { true }).cloned().collect()
+        };
+        let xs = if lead == 0.0 { *x } else { polish(&c, *x) };
+        let mut tol = forward_tol(*x, &others, rmax_low);
+        if !negligible {
+            // not negligible: the lower polynomial's root must really persist in the raised polynomial (a small,
+            // converged Newton correction), and only the normwise bound of the raised polynomial applies
+            // (its extra root is ~ -c_m/lead)
+            let sep = others.iter().fold(f64::INFINITY, |m, z| m.min((x - z.0).hypot(z.1)));
+            let sep = if sep.is_finite() { sep } else { x.abs() };
+            if !((xs - x).abs() <= 1e-2 * sep) || !(horner(&c, xs).abs() <= 64.0 * EPS * norm_sum(&c, xs.abs())) {
+                continue;
+            }
+            let huge = (lower[m] / lead).abs().max(rmax_low);
+            let mut o2 = others.clone();
+            o2.push((-lower[m] / lead, 0.0));
+            tol = tol.max(forward_tol(xs, &o2, huge));
+        }
+        if !got.iter().any(|g| (g - xs).abs() <= tol) {
+            return fail(&class, format!("{}: no returned value within {:e} of the root {}", desc, tol, xs));
+        }
+    }
+    None
+}
+fn solve_any_lower(c: &[f64]) -> Vec<f64> {
+    match c.len() {
+        2 => solve_quadratic(c[0], c[1], 0.0).to_vec(),
+        3 => solve_quadratic(c[0], c[1], c[2]).to_vec(),
+        _ => solve_cubic(c[0], c[1], c[2], c[3]).to_vec(),
+    }
+}
+
+// ---- ITP
+
+/// monotone increasing g; f(x) = g(x) - g(z): [kind, z, a, b, eps, n0, k1mode]
+fn itp_g(kind: usize, x: f64) -> f64 {
+    match kind {
+        0 => x,
+        1 => x * x * x,
+        2 => x / (1.0 + x.abs()),
+        _ => x.exp(),
+    }
+}
+fn g_itp(r: &mut Rng) -> Vec<f64> {
+    let kind = r.below(4) as f64;
+    let a = r.uniform(-3.0, 3.0);
+    let b = a + 10f64.powf(r.uniform(-3.0, 0.7));
+    let z = a + (b - a) * r.uniform(0.001, 0.999);
+    let eps = (b - a) * 10f64.powf(r.uniform(-9.0, -0.3));
+    vec![kind, z, a, b, eps, r.below(3) as f64, r.below(3) as f64]
+}
+fn law_itp(v: &[f64]) -> Option<(String, String)> {
+    let (kind, z, a, b, eps, n0) = (v[0] as usize, v[1], v[2], v[3], v[4], v[5] as usize);
+    let k1 = match v[6] as usize {
+        0 => 0.2 / (b - a),
+        1 => 0.0,
+        _ => 1.0,
+    };
+    let gz = itp_g(kind, z);
+    let f = |x: f64| itp_g(kind, x) - gz;
+    let (ya, yb) = (f(a), f(b));
+    if !(ya < 0.0 && yb > 0.0) {
+        return None;
+    }
+    kurbo::verif::reset();
+    let mut evals = 0u64;
+    let x = solve_itp(
+        |x| {
+            evals += 1;
+            if evals > ITP_MAX_EVALS {
+                panic!("solve_itp does not terminate"); // reported as class itp_monotone:panic
+            }
+            f(x)
+        },
+        a,
+        b,
+        eps,
+        n0,
+        k1,
+        ya,
+        yb,
+    );
+    let iters = kurbo::verif::work();
+    let desc = format!("solve_itp(g{} - g{}({}), a={}, b={}, eps={:e}, n0={}, k1={}) = {} after {} iterations", kind, kind, z, a, b, eps, n0, k1, x, iters);
+    if !(x >= a && x <= b) {
+        return fail("solve_itp:outside-bracket", desc);
+    }
+    // f is evaluated with rounding: its computed sign is right outside a few ulps of z
+    let slack = 4096.0 * EPS * (a.abs().max(b.abs()) + 1.0);
+    if !((x - z).abs() <= eps * (1.0 + 8.0 * EPS) + slack) {
+        return fail("solve_itp:not-within-epsilon", format!("{}: |x - z| = {:e}", desc, (x - z).abs()));
+    }
+    let n1_2 = (((b - a) / eps).log2().ceil() - 1.0).max(0.0) as u64;
+    if iters > n0 as u64 + n1_2 + 1 {
+        return fail("solve_itp:iteration-budget", format!("{}: budget n0 + n1/2 = {}", desc, n0 as u64 + n1_2));
+    }
+    None
+}
+
+fn w_from_roots(a: &[f64]) -> Option<(String, String)> {
+    finish(law_from_roots(a), Some(build_from_roots(a).0))
+}
+fn w_int(a: &[f64]) -> Option<(String, String)> {
+    let c = if a[0] == 3.0 {
+        Some(a[1..5].to_vec())
+    } else if a[0] == 4.0 {
+        // product of the two integer quadratics (c0 = 0 or c4 = 0 delegates to the cubic solver)
+        let f = &a[1..7];
+        let mut c = vec![0.0; 5];
+        for i in 0..3 {
+            for j in 0..3 {
+                c[i + j] += f[i] * f[3 + j];
+            }
+        }
+        Some(c)
+    } else {
+        None
+    };
+    finish(law_int(a), c)
+}
+fn w_raised(a: &[f64]) -> Option<(String, String)> {
+    let k = RAISE[a[0] as usize];
+    let mut c = build_from_roots(&a[2..]).0;
+    let big = c.iter().fold(0f64, |x, y| x.max(y.abs()));
+    c.push(a[1] * k * big);
+    finish(law_raised(a), Some(c))
+}
+fn w_quartic_structured(a: &[f64]) -> Option<(String, String)> {
+    finish(law_quartic_structured(a), None)
+}
+fn w_itp(a: &[f64]) -> Option<(String, String)> {
+    finish(law_itp(a), None)
+}
+
+fn laws() -> Vec<Law> {
+    vec![
+        Law { name: "quadratic_from_roots", gen: g_roots2, check: w_from_roots, weight: 3 },
+        Law { name: "cubic_from_roots", gen: g_roots3, check: w_from_roots, weight: 4 },
+        Law { name: "quartic_from_roots", gen: g_roots4, check: w_from_roots, weight: 4 },
+        Law { name: "integer_coefficients", gen: g_int, check: w_int, weight: 4 },
+        Law { name: "quartic_structured", gen: g_quartic_structured, check: w_quartic_structured, weight: 3 },
+        Law { name: "raised_degree", gen: g_raised, check: w_raised, weight: 3 },
+        Law { name: "itp_monotone", gen: g_itp, check: w_itp, weight: 2 },
+    ]
+}
+
+fn extra(_r: &mut Rng, _thorough: bool, o: &mut Out) {
+    // known finding: solve_cubic on a quadratic raised with a leading coefficient of rounding size
+    let (p, q) = (-1.55f64, -3.35f64);
+    let got = solve_cubic(p * q, -(p + q), 1.0, 1e-16);
+    let bad = !(got.iter().any(|x| (x - p).abs() < 1e-6) && got.iter().any(|x| (x - q).abs() < 1e-6));
+    o.known(
+        "C15-cubic-tiny-leading",
+        bad,
+        format!("solve_cubic({}, {}, 1, 1e-16) = {:?}; the roots of the quadratic are {} and {}", p * q, -(p + q), got, p, q),
+    );
+    let got = solve_cubic(p * q, -(p + q), 1.0, 1e-300);
+    o.known(
+        "C15-cubic-tiny-leading",
+        got.iter().any(|x| !x.is_finite()) || got.len() < 2,
+        format!("solve_cubic({}, {}, 1, 1e-300) = {:?}", p * q, -(p + q), got),
+    );
+    // known finding: the one-root branch loses the smaller cube root to cancellation
+    let got = solve_cubic(-5.0, 1e-5, 0.0, 1.0);
+    o.known(
+        "C15-cubic-one-root-cancellation",
+        !(got.len() == 1 && (got[0] - 1.7099739973315382).abs() < 1e-12),
+        format!("solve_cubic(-5, 1e-5, 0, 1) = {:?}; the root is 1.7099739973315382", got),
+    );
+    // known finding: solve_quartic gives up (overflow) when the leading coefficient is 1e-300
+    let got = solve_quartic(6.0, -7.0, 0.0, 1.0, 1e-300);
+    o.known(
+        "C15-quartic-tiny-leading",
+        got.len() < 3,
+        format!("solve_quartic(6, -7, 0, 1, 1e-300) = {:?}; the cubic x^3 - 7x + 6 has roots -3, 1, 2", got),
+    );
+}
